@@ -101,7 +101,7 @@ def server_line(rng, force=None):
     return line, o
 
 
-def history(rng, force=None, nconn=None, teardown=None, length=None, avoid_overlap=True):
+def history(rng, force=None, nconn=None, teardown=None, length=None, avoid_overlap=True, sane=True):
     """one random connection history; returns (lines, opts)"""
     line, o = server_line(rng, force)
     lines = [line]
@@ -145,7 +145,7 @@ def history(rng, force=None, nconn=None, teardown=None, length=None, avoid_overl
                 data = data + rng.choice(pool)[1]          # pipelined in one read
             for part in split_reads(rng, data):
                 lines.append("read c%d %s" % (c, hx(part)))
-                if rng.chance(1, 6):
+                if rng.chance(3, 4) if avoid_overlap else rng.chance(1, 6):
                     lines.append("wdone c%d" % c)
             if o["policy"] == "deferred" and rng.chance(3, 4):
                 if avoid_overlap:
@@ -166,10 +166,23 @@ def history(rng, force=None, nconn=None, teardown=None, length=None, avoid_overl
         elif r < 78:
             lines.append("late c%d %s" % (c, rng.choice(["read", "write"])))
         elif r < 84:
+            if sane and o["policy"] in ("sync", "router"):
+                continue
             if avoid_overlap:
                 lines.append("wdone c%d" % c)
             lines.append(app_send(rng, c))
             lines.append("wdone c%d" % c)
+        elif r < 89 and sane:
+            # a well-formed chunked response issued by the application: head, chunks, last chunk
+            if o["policy"] in ("deferred", "none"):
+                lines.append("wdone c%d" % c)
+                lines.append("app-send c%d st=200 hs=%s" % (c, hx(b"Transfer-Encoding: Chunked\r\n")))
+                lines.append("wdone c%d" % c)
+                for _ in range(rng.range(0, 3)):
+                    lines.append("app-chunk c%d d=%s%s" % (c, hx(rng.bytes(rng.range(1, 5))), rng.choice(["", " ext=6578", " ovl=bufs"])))
+                    lines.append("wdone c%d" % c)
+                lines.append("app-last c%d%s" % (c, rng.choice(["", " ext=78", " tr=" + hx(b"T: v\r\n")])))
+                lines.append("wdone c%d" % c)
         elif r < 87:
             if avoid_overlap:
                 lines.append("wdone c%d" % c)
@@ -183,7 +196,8 @@ def history(rng, force=None, nconn=None, teardown=None, length=None, avoid_overl
         elif r < 92:
             lines.append("app-disconnect c%d" % c)
         elif r < 93:
-            lines.append("app-respond c%d" % c)
+            if not sane:
+                lines.append("app-respond c%d" % c)
         elif r < 96:
             lines.append("state")
         elif r < 97:
@@ -206,7 +220,7 @@ def app_send(rng, c):
     args = ["app-send", "c%d" % c, "st=%d" % st]
     if rng.chance(1, 3):
         args.append("hs=" + hx(rng.choice([b"X-A: 1\r\n", b"X-A: 1\r\nX-B: 2\r\n", b"\r\nX: 1\r\n", b"X: y"])))
-    if rng.chance(2, 3):
+    if rng.chance(2, 3) and st not in (204, 100):
         args.append("b=" + hx(rng.bytes(rng.range(0, 20))))
         if rng.chance(1, 3):
             args.append("ovl=bufs")
